@@ -168,6 +168,22 @@ Fixpoint hist_log (W H : N) (s : sys) (h : list (N * op)) : list text :=
 Definition ms_expected (W : N) (pre : list (list N)) (g : mghost) : list (list N) :=
   pre ++ wrap (N.to_nat W) (mg_log g) ++ mg_kept g ++ mg_live g.
 
+(* ------------------------------------------------------------------ statement vocabulary of C02_live_forced *)
+(** between calls: no pending orphan line, and the MultiProgress draws to a terminal *)
+Definition J (m : mstate) : Prop := ms_orphans m = [] /\ exists tg, ms_target m = TTerm tg.
+
+(** [Clean]: the live rows are exactly the stored lines of the members that are in the ordering,
+    in ordering order (each member once: the ordering has no duplicates) *)
+Definition Clean (W : N) (m : mstate) (g : mghost) : Prop :=
+  mg_live g = wrap (N.to_nat W) (map lt (bar_lines_of m)).
+
+(** the calls on a member that force a draw of all members *)
+Definition forced_member_op (s : sys) (o : op) : bool :=
+  match o with
+  | OFinish b _ | OFinishUsingStyle b | OForceDraw b | OSetTabWidth b | ORemove b => is_member s b
+  | _ => false
+  end.
+
 (* ------------------------------------------------------------------ C04_kept: the final phase *)
 (** the calls of the final phase of the kept clause: finishing calls and drops (every multi draw
     they make is forced), in any order, on any bars *)
